@@ -615,6 +615,39 @@ def r11_broken_pipe(ctx):
         ctx.functions.add(q)
 
 
+def r11_second_port(ctx):
+    """close() sends the reset messages - for the second port of the process as for the first, and for a second reset() of one
+    port: reset() is interpreted twice on one port and then on another, 32 messages each time; and no module-level table of the
+    package is a one-shot iterator that the first use would leave empty (shared with C16 R16.4)."""
+    from . import c16
+    ctx.borrow(c16.r16_4, 'R11.11')
+    ai = pm.make_interp(ctx)
+    sent = []
+    pm.device_double(ai, ctx, on_send=lambda interp, port, msg: sent.append((port, msg)))
+    holder = {}
+
+    def thunk():
+        del sent[:]
+        a = pm.new_port(ai, ctx, 'BaseOutput', [], {'autoreset': True})
+        b = pm.new_port(ai, ctx, 'BaseOutput', [], {'autoreset': True})
+        pm.call(ai, ctx, a, 'reset')
+        n1 = len(sent)
+        pm.call(ai, ctx, a, 'reset')
+        n2 = len(sent)
+        pm.call(ai, ctx, a, 'close')
+        n3 = len(sent)
+        pm.call(ai, ctx, b, 'close')
+        return n1, n2 - n1, n3 - n2, len(sent) - n3
+    outs = ai.explore(thunk)
+    o, rs = ctx.p.lookup_method(ctx.p.cls(P, 'BaseOutput'), 'reset')
+    ok = len(outs) == 1 and outs[0].kind == 'return' and tuple(outs[0].value) == (32, 32, 32, 32)
+    ctx.require(ok, 'R11.11', 'reset, reset again, close (autoreset), close of a second port', ctx.where(rs),
+                f'messages sent by the four resets: {outs[0].value if len(outs) == 1 and outs[0].kind == "return" else outs}; 32 each time '
+                '(all notes off + reset all controllers on 16 channels)', construct=f'{rs.qname}::every-time')
+    for q in ai.inlined:
+        ctx.functions.add(q)
+
+
 def r11_multi_child_fails(ctx):
     """A MultiPort whose child fails while it is polled: what the MultiPort had already taken out of the other children is not
     lost - the error comes out of the call, and the next receive hands the messages out."""
@@ -756,4 +789,4 @@ def r11_reset_via_send(ctx):
     ctx.floor('R11.8', n, 3)
 
 
-RULES = [('R11.10', r11_multi_child_fails), ('R11.9', r11_multi_oneshot), ('R11.8', r11_reset_via_send), ('R11-broken-pipe', r11_broken_pipe), ('R11-socket', r11_socket), ('R11-server', r11_server), ('R11-close', r11_close), ('R11-send', r11_send), ('R11-receive', r11_receive), ('R11-multi', r11_multi)]
+RULES = [('R11.11', r11_second_port), ('R11.10', r11_multi_child_fails), ('R11.9', r11_multi_oneshot), ('R11.8', r11_reset_via_send), ('R11-broken-pipe', r11_broken_pipe), ('R11-socket', r11_socket), ('R11-server', r11_server), ('R11-close', r11_close), ('R11-send', r11_send), ('R11-receive', r11_receive), ('R11-multi', r11_multi)]
